@@ -22,7 +22,7 @@ import (
 )
 
 const (
-	MaxThreads = 12
+	MaxThreads = 30
 	MaxPoints  = 4096
 	MaxNotes   = 1 << 15
 	ctrlID     = -1
